@@ -81,12 +81,14 @@ def _completes(t, sid):
     return [f for f in t.frames(sid) if isinstance(f, PayloadFrame) and f.flags_complete]
 
 
-def c_responder_credit(n0: int, n1: int, n2: int, early: bool, split: bool) -> str:
+def c_responder_credit(n0: int, n1: int, n2: int, early: bool, split: bool, rcancel: bool) -> str:
     """
     Responder of a request-stream / request-channel (ROLE) over the library stream source SRC holding M elements:
     initial request-n n0 and two REQUEST_N (n1, n2) as 31-bit symbolic integers; `early` delivers the first
     REQUEST_N in the same read as the request (before the feeder tasks ran), `split` delivers both REQUEST_N
-    back to back.  At every quiescent point  #PAYLOAD(next) on the wire == min(M, credit so far)  (never more,
+    back to back; on a channel the responder's application may cancel the requester's direction (`rcancel`) before
+    further credit arrives - its own publisher is still owed every element it gets credit for.
+    At every quiescent point  #PAYLOAD(next) on the wire == min(M, credit so far)  (never more,
     and everything once enough credit was granted), in order; completion only after the last element.
 
     pre: 1 <= n0 <= 0x7FFFFFFF and 1 <= n1 <= 0x7FFFFFFF and 1 <= n2 <= 0x7FFFFFFF
@@ -94,13 +96,15 @@ def c_responder_credit(n0: int, n1: int, n2: int, early: bool, split: bool) -> s
     """
     m = M
     asked = []
+    recs = []
 
     class H(BaseRequestHandler):
         async def request_stream(self, payload):
             return _publisher(SRC, m, COL, asked)
 
         async def request_channel(self, payload):
-            return _publisher(SRC, m, COL, asked), Rec()
+            recs.append(Rec())
+            return _publisher(SRC, m, COL, asked), recs[0]
 
     early = concb(early)
     split = concb(split)
@@ -131,6 +135,9 @@ def c_responder_credit(n0: int, n1: int, n2: int, early: bool, split: bool) -> s
                 devs.append('element-withheld-despite-credit:' + where)
 
         check('after-request')
+        if ROLE == 'chan' and concb(rcancel) and recs and recs[0].subscription is not None:
+            recs[0].subscription.cancel()          # the responder application no longer wants the requester's elements
+            loop.run_ready()
         if not early:
             t.feed_wire(to_request_n_frame(1, n1))
             credit += n1
